@@ -675,3 +675,88 @@ def register_graph_from_comp(reg):
         ] + [(k, dict(expr=v, **{"from": ["exactly-the-component", "adjacency-and-tags-copied"]})) for k, v in _wfd("result", "").items()]),
         notes="the new nodes SHARE their start / end sets and tag dictionaries with the original graph's nodes (aliasing, not modelled: the copy is read-only in order_gfa)",
     ))
+
+
+# ---- write_gfa, the links written for ONE node (the body of the second output loop after the existence test), C07 -------------------------------
+# For the node n1 the lines appended are exactly: one L line per entry of n1's start set (then end set), in the iteration order of the set,
+# whose neighbour is among the nodes being written and for which link tags are stored under the key of THIS end (non-empty list; the `[0]`
+# sentinel means "declared from this end without tags"); nothing else.  Together with the edge_tags invariant "every link has its tags under
+# exactly one of its two keys" (established by read_graph, a precondition here) this is exactly-once emission of every link.
+def register_write_gfa_links(reg):
+    def side(k, fld, sign):
+        S, C = "S%d" % k, "C%d" % k
+        key = "(n1, %d, %s[t][0], %s[t][1])" % (k - 1, S, S)
+        q = "lambda t: %s[t][0] in set_of_nodes and %s in self.edge_tags and len(self.edge_tags[%s]) > 0" % (S, key, key)
+        tg = "lambda t: self.edge_tags[%s]" % key
+        return S, C, key, q, tg
+
+    macros = {}
+    for k, fld, sign in ((1, "start", "-"), (2, "end", "+")):
+        S, C, key, q, tg = side(k, fld, sign)
+        macros["q%d" % k] = q
+        macros["tg%d" % k] = tg
+        macros["notags%d" % k] = "lambda t: self.edge_tags[%s][0] == 0" % key
+    LINE_OK = ("len({L}) == 6 + ite(notags{k}(t), 0, len(tg{k}(t))) and {L}[0] == 'L' and {L}[1] == n1 and {L}[2] == '{sign}' and {L}[3] == S{k}[t][0] and "
+               "{L}[4] == ite(S{k}[t][1] == 0, '+', '-') and {L}[5] == cat(str(S{k}[t][2]), 'M') and "
+               "implies(not notags{k}(t), forall(lambda u: implies(0 <= u < len(tg{k}(t)), {L}[6 + u] == tg{k}(t)[u])))")
+    defs = []
+    for k, fld in ((1, "start"), (2, "end")):
+        defs += ["C%d[0] == 0" % k,
+                 "forall(lambda t: implies(0 <= t < len(S%d), C%d[t + 1] == C%d[t] + ite(q%d(t), 1, 0)))" % (k, k, k, k),
+                 # pairwise form of the same prefix counts (consequence by induction)
+                 "forall(lambda t, u: implies(0 <= t < u <= len(S%d), C%d[t] + ite(q%d(t), 1, 0) <= C%d[u])) and forall(lambda t: implies(0 <= t <= len(S%d), C%d[t] >= 0))" % (k, k, k, k, k, k)]
+    inv3 = {
+        "count": "len(edges) == C1[it3]",
+        "lines": "forall(lambda t: implies(0 <= t < it3 and q1(t), " + LINE_OK.format(L="edges[C1[t]]", k=1, sign="-") + "))",
+        "nothing-else": "forall(lambda j: implies(0 <= j < len(edges), 0 <= src[j] < it3 and q1(src[j]) and C1[src[j]] == j))",
+    }
+    inv4 = {
+        "count": "len(edges) == C1[len(S1)] + C2[it4]",
+        "start-lines-kept": "forall(lambda t: implies(0 <= t < len(S1) and q1(t), " + LINE_OK.format(L="edges[C1[t]]", k=1, sign="-") + "))",
+        "lines": "forall(lambda t: implies(0 <= t < it4 and q2(t), " + LINE_OK.format(L="edges[C1[len(S1)] + C2[t]]", k=2, sign="+") + "))",
+        "nothing-else": "forall(lambda j: implies(0 <= j < len(edges), ite(j < C1[len(S1)], 0 <= src[j] < len(S1) and q1(src[j]) and C1[src[j]] == j, "
+                        "0 <= src[j] < it4 and q2(src[j]) and C1[len(S1)] + C2[src[j]] == j)))",
+    }
+    reg.add(Contract(
+        file=GFA, func="GFA.write_gfa", variant="#links-of-one-node", fragment=("edges = []", 4),
+        params=dict(self=GFAT, n1=STR, set_of_nodes=SetT(STR), f=ListT(LINE)), modifies=["f"], returns=NONE, types=dict(STR=STR, INT=INT),
+        ghost=dict(S1=ListT(Edge), S2=ListT(Edge), C1=IMAP, C2=IMAP, src=IMAP, F0=ListT(LINE), L0=INT),
+        locals=dict(edges=ListT(LINE), tags=ListT(STR), edge=LINE), spec_funcs=macros,
+        requires=["n1 in self.nodes"],
+        ghost_at={"before:for n in self.nodes[n1].start": "S1 = members(self.nodes[n1].start)\nS2 = members(self.nodes[n1].end)\nF0 = f"},
+        assume_at={"before:for n in self.nodes[n1].start": defs},
+        loops={
+            1: Loop(index="it3", fingerprint="for n in self.nodes[n1].start", invariant=inv3, ghost_body_start="L0 = len(edges)",
+                    ghost_body_end="src[len(edges) - 1] = ite(len(edges) > L0, it3 - 1, src[len(edges) - 1])"),
+            2: Loop(index="it4", fingerprint="for n in self.nodes[n1].end", invariant=inv4, ghost_body_start="L0 = len(edges)",
+                    ghost_body_end="src[len(edges) - 1] = ite(len(edges) > L0, it4 - 1, src[len(edges) - 1])"),
+            3: Loop(index="it5", fingerprint="for e in edges", invariant={
+                "written-so-far": "len(f) == len(F0) + it5 and forall(lambda j: implies(0 <= j < it5, same(f[len(F0) + j], edges[j])))",
+                "earlier-lines-kept": "forall(lambda j: implies(0 <= j < len(F0), same(f[j], F0[j])))"}),
+        },
+        ensures={
+            "as-many-lines-as-links-declared-from-this-node": "len(f) == len(old(f)) + C1[len(S1)] + C2[len(S2)]",
+            "earlier-lines-kept": "forall(lambda j: implies(0 <= j < len(old(f)), same(f[j], old(f)[j])))",
+            "one-line-per-qualifying-start-entry": "forall(lambda t: implies(0 <= t < len(S1) and q1(t), " + LINE_OK.format(L="f[len(old(f)) + C1[t]]", k=1, sign="-") + "))",
+            "one-line-per-qualifying-end-entry": "forall(lambda t: implies(0 <= t < len(S2) and q2(t), " + LINE_OK.format(L="f[len(old(f)) + C1[len(S1)] + C2[t]]", k=2, sign="+") + "))",
+        },
+        notes="S1 / S2: ghost enumerations of the node's start / end sets (iteration order); C1 / C2: number of qualifying entries among the first t "
+              "(defined where the enumerations come into existence); src: which entry an appended line came from",
+    ))
+
+
+def lemma_exactly_once(reg, repo):
+    """C07 composition: per-node emission (write_gfa#links-of-one-node) + "every link has non-empty tags under exactly one of its two keys"
+    (the edge_tags state read_graph builds when every link is declared by one L line) => a link whose two nodes are both written is emitted from
+    exactly one of its ends (a link from a side to itself: from that one entry)."""
+    S = z3.DeclareSort("EndSide")  # an end of a link: (node, side)
+    a, b = z3.Consts("lem_a lem_b", S)
+    inset = z3.Function("end_node_is_written", S, z3.BoolSort())
+    nk = z3.Function("nonempty_tags_under_key", S, S, z3.BoolSort())
+    emitted_from = lambda x, y: z3.And(inset(y), nk(x, y))  # what the per-node postcondition says about the entry `y` in the set of end `x`
+    hyps = [z3.ForAll([a, b], z3.Implies(a != b, z3.Xor(nk(a, b), nk(b, a)))), z3.ForAll([a], nk(a, a))]
+    goal = z3.And(z3.ForAll([a, b], z3.Implies(z3.And(inset(a), inset(b), a != b), z3.Xor(emitted_from(a, b), emitted_from(b, a)))),
+                  z3.ForAll([a], z3.Implies(inset(a), emitted_from(a, a))))
+    o = Oblig("gaftools.gfa:lemma::link-emitted-from-exactly-one-end", "lemma", hyps, goal)
+    o.inputs = []
+    return [o]
